@@ -5,6 +5,8 @@
 package agent
 
 import (
+	"sync"
+
 	log "github.com/sirupsen/logrus"
 
 	"github.com/dtn7/dtn7-go/pkg/bpv7"
@@ -15,6 +17,10 @@ type PingAgent struct {
 	endpoint bpv7.EndpointID
 	receiver chan Message
 	sender   chan Message
+
+	// pongs on their way to the sender, each in a goroutine of its own, and the signal to give them up
+	pending sync.WaitGroup
+	closing chan struct{}
 }
 
 // NewPing creates a new PingAgent ApplicationAgent.
@@ -23,6 +29,7 @@ func NewPing(endpoint bpv7.EndpointID) *PingAgent {
 		endpoint: endpoint,
 		receiver: make(chan Message),
 		sender:   make(chan Message),
+		closing:  make(chan struct{}),
 	}
 
 	go p.handler()
@@ -35,7 +42,11 @@ func (p *PingAgent) log() *log.Entry {
 }
 
 func (p *PingAgent) handler() {
-	defer close(p.sender)
+	defer func() {
+		close(p.closing)
+		p.pending.Wait()
+		close(p.sender)
+	}()
 
 	for m := range p.receiver {
 		switch m := m.(type) {
@@ -72,7 +83,19 @@ func (p *PingAgent) ackBundle(b bpv7.Bundle) {
 		p.log().WithError(err).Warn("Building ACK Bundle errored")
 	} else {
 		p.log().WithField("bundle", bndl).Info("Sending ACK Bundle")
-		p.sender <- BundleMessage{bndl}
+
+		// The supervising MuxAgent hands over Messages while holding its lock, and the reader of its sender may
+		// need that lock to get on. The goroutine reading the receiver must therefore not wait for its pong to
+		// be taken: a few pings in a row would block the MuxAgent, this agent and that reader for good.
+		p.pending.Add(1)
+		go func() {
+			defer p.pending.Done()
+
+			select {
+			case p.sender <- BundleMessage{bndl}:
+			case <-p.closing:
+			}
+		}()
 	}
 }
 
